@@ -27,10 +27,12 @@ type spec struct {
 	Ops   int    `json:"ops"`
 	Yield bool   `json:"yield"`
 	Rep   int    `json:"rep"`
-	Kind  string `json:"kind,omitempty"` // "" (mixer) | startonce | heldreply | dialpark | dialopt
+	Kind  string `json:"kind,omitempty"` // "" (mixer) | startonce | heldreply | dialpark | dialopt | parkrecv | closedial
 	// heldreply: Mode dup|recv, QLen = WriteQLen, K = concurrent Sends, Ctx = context (not socket), Sim = simultaneous Sends on a second context
 	// dialpark:  Mode listener|socket (what is closed), Ev = hook event that occupies the accept loop, Pass = connections before it, K = Dials in progress, Ctx = dialers share one socket
 	// dialopt:   Mode hangup|close (what ends the scenario), Ev = outer|inner (TLS transports: the peer is silent before / after the TLS handshake), K = calls made while the Dial is parked
+	// parkrecv:  Mode = the first call made while the Recv is parked, K = number of calls, Ctx = Recv on a context, Pass = 2 or 3 subscriptions (SUB), Sim = the receiving socket listens
+	// closedial: Mode drop-peer|drop-local|backoff (what armed the reconnect timer), Ev = dialer|socket (what is closed), K = reconnect time in ms, Ctx = DialAsynch, Pass = refused redials before the Close (backoff)
 	Mode string `json:"mode,omitempty"`
 	QLen int    `json:"qlen,omitempty"`
 	K    int    `json:"k,omitempty"`
@@ -99,9 +101,51 @@ func TestC11(t *testing.T) {
 		}
 		cases = append(cases, mon.CaseSpec{Name: "dialopt/" + tr + "/" + sp.Mode, Spec: sp})
 	}
+	// a Recv parked on a socket / context while other goroutines set options on it; then the peer sends
+	prTrans := []string{"inproc", "tcp", "ipc"}
+	if r.Thorough() {
+		prTrans = []string{"inproc", "tcp", "ipc", "tls+tcp", "ws", "wss"}
+	}
+	prN := 0
+	addPR := func(proto, mode string, ctx bool) {
+		sp := spec{Kind: "parkrecv", Proto: proto, Tran: prTrans[prN%len(prTrans)], Mode: mode, K: 1 + rnd.Intn(3), Ctx: ctx, Pass: rnd.Intn(2), Sim: rnd.Intn(2) == 0, Rep: prN}
+		prN++
+		cases = append(cases, mon.CaseSpec{Name: "parkrecv/" + proto + "/" + sp.Tran, Spec: sp})
+	}
+	prSubModes := []string{"Unsubscribe(present)", "Unsubscribe(absent)", "Subscribe(new)", "Subscribe(present)", "SetOption(ReadQLen)", "Socket.SetOption(ReadQLen)", "Unsubscribe(present)"}
+	prModes := []string{"SetOption(ReadQLen)", "SetOption(RecvDeadline)", "SetOption(TTL)", "SetOption(WriteQLen)", "OpenContext+Close", "GetOption(ReadQLen)", "SetOption(ReadQLen)"}
+	prProtos := []string{"xsub", "pull", "xpull", "pair", "xpair", "pair1", "xpair1", "bus", "xbus", "star", "xstar", "rep", "xrep", "respondent", "xrespondent"}
+	for rep := 0; rep < r.Pick(1, 14); rep++ {
+		for i, m := range prSubModes {
+			addPR("sub", m, (i+rep)%2 == 0)
+			if rep > 0 || i == 0 || i == len(prSubModes)-1 {
+				addPR("sub", m, (i+rep)%2 != 0)
+			}
+		}
+		for i, p := range prProtos {
+			ctx := (p == "rep" || p == "respondent") && (i+rep)%2 == 0
+			addPR(p, prModes[(i+rep)%len(prModes)], ctx)
+		}
+	}
+	// a dialer closed while its reconnect timer is armed: no connection afterwards
+	cdProtos := append([]string{"pair", "pair1"}, dpProtos...)
+	cdCombos := [][3]string{
+		{"vt", "drop-peer", "dialer"}, {"inproc", "drop-peer", "dialer"}, {"vt", "backoff", "dialer"}, {"tcp", "drop-peer", "dialer"},
+		{"vt", "drop-local", "dialer"}, {"inproc", "drop-local", "dialer"}, {"vt", "drop-peer", "socket"}, {"ipc", "drop-local", "dialer"},
+		{"inproc", "drop-peer", "socket"}, {"vt", "backoff", "socket"}, {"tcp", "drop-local", "socket"}, {"vt", "drop-local", "socket"},
+	}
+	for i := 0; i < r.Pick(12, 144); i++ {
+		cb := cdCombos[i%len(cdCombos)]
+		sp := spec{Kind: "closedial", Proto: cdProtos[rnd.Intn(len(cdProtos))], Tran: cb[0], Mode: cb[1], Ev: cb[2], K: []int{60, 100, 150}[rnd.Intn(3)], Ctx: rnd.Intn(3) == 0, Pass: rnd.Intn(2), Rep: i}
+		cases = append(cases, mon.CaseSpec{Name: "closedial/" + sp.Tran + "/" + sp.Mode + "/" + sp.Ev, Spec: sp})
+	}
 	r.Run(cases, func(c *mon.Case) {
 		sp := c.Spec.(spec)
 		switch sp.Kind {
+		case "parkrecv":
+			parkRecv(c, sp)
+		case "closedial":
+			closeDial(c, sp)
 		case "dialopt":
 			dialOpt(c, sp)
 		case "startonce":
